@@ -34,7 +34,7 @@ def main():
     ap.add_argument("--desc", default="")
     a = ap.parse_args()
     wt = a.wt
-    env = dict(os.environ, PYTHONPATH=f"{wt}/src:/tmp/otshim", PYTHONHASHSEED="0")
+    env = dict(os.environ, PYTHONPATH=f"{wt}/src:/tmp/otshim", PYTHONHASHSEED="0", LOKY_MAX_CPU_COUNT="2", OMP_NUM_THREADS="1")
     meta = {"id": a.sid, "property": a.prop, "description": a.desc, "needs_to_manifest": a.needs, "ran": []}
     # 1. demo both ways
     r1 = sh(f"cd {wt} && /venv/bin/python demo.py", env=env)
